@@ -1582,7 +1582,76 @@ class OpSetitem:
         o = {'op': 'setitem', 'a': a, 'mode': rng.choice(['ndarray', 'npc']), 'inds': inds, 'values': enc_vec(vals)}
         if any(isinstance(x, list) and x != sorted(x) for x in sel):
             o['cond'] = 'unsorted-index'
+        r2 = getattr(env, 'sparse_values', None)
+        if r2 is not None:
+            OpSetitem.sparsify(r2, env, A, o, vals)
         return o
+
+    @staticmethod
+    def sparsify(r2, env, A, o, vals):
+        """program key `sparse_values`: the assigned value gets a block sparsity that is INDEPENDENT of the block sparsity of the selected
+        part of `a` (drawn from the side generator r2, so that the operation sequence of the program is unchanged): per charge block of
+        a[inds] the value is zero / non-zero by one of the patterns below, and as npc Array it does not store its zero blocks (`purge`),
+        stores them (no `purge`), or stores its blocks in shuffled order"""
+        try:
+            P, _ = _ref_getitem(env, A, o['inds'])
+        except ExpectError:
+            return
+        if P is None or P.dense.shape != vals.shape:
+            return
+        part_allowed = allowed_mask(P, env.mods)
+        blocks = []                 # (slices, the part of `a` is non-zero there) for every charge-allowed block of a[inds] with entries
+        for c in block_combos(P.legs):
+            sl = tuple(slice(int(l.slices[b]), int(l.slices[b + 1])) for l, b in zip(P.legs, c))
+            if part_allowed[sl].size and part_allowed[sl].all():
+                blocks.append((sl, bool(np.any(P.dense[sl] != 0))))
+        if not blocks:
+            return
+        pat = r2.choice(['all', 'indep', 'indep', 'indep', 'complement', 'same-count', 'same-support', 'none', 'superset', 'subset'])
+        nz = [b for b in blocks if b[1]]
+        ze = [b for b in blocks if not b[1]]
+        if pat == 'all':
+            keep = list(blocks)
+        elif pat == 'indep':
+            p = r2.choice([0.3, 0.5, 0.7])
+            keep = [b for b in blocks if r2.random() < p]
+        elif pat == 'complement':       # non-zero exactly where a[inds] vanishes
+            keep = list(ze)
+        elif pat == 'same-count':       # as many non-zero blocks as a[inds] has, at other positions as far as possible
+            k = len(nz)
+            r2.shuffle(ze)
+            keep = ze[:k]
+            if len(keep) < k:
+                keep += r2.sample(nz, k - len(keep))
+        elif pat == 'same-support':
+            keep = list(nz)
+        elif pat == 'superset':         # more blocks than a[inds], but not all of those of a[inds]
+            keep = list(ze) + ([b for b in nz if r2.random() < 0.5] if len(nz) > 1 else [])
+        elif pat == 'subset':
+            keep = [b for b in nz if r2.random() < 0.5]
+        else:
+            keep = []
+        if not keep and pat != 'none' and r2.random() < 0.8:
+            # the pattern relative to a[inds] is empty (a[inds] vanishes / has no vanishing block): independent choice instead
+            keep = [b for b in blocks if r2.random() < 0.5] or [r2.choice(blocks)]
+            pat += '>indep'
+        new = np.zeros_like(vals)
+        cplx = np.iscomplexobj(vals)
+        for sl, _ in keep:
+            blk = vals[sl]
+            if not np.any(blk != 0):
+                blk = rand_values(r2, blk.shape, cplx)
+                if not np.any(blk != 0):
+                    blk.flat[r2.randrange(blk.size)] = r2.choice([1, -2, 3])
+            new[sl] = blk
+        o['values'] = enc_vec(new)
+        o['pattern'] = pat
+        if o['mode'] == 'ndarray' and r2.random() < 0.6:
+            o['mode'] = 'npc'
+        if o['mode'] == 'npc':
+            o['purge'] = r2.random() < 0.85
+            if r2.random() < 0.3:
+                o['shuffle'] = r2.randrange(1000)
 
     @staticmethod
     def ref(env, o, aux):
@@ -1622,6 +1691,30 @@ class OpSetitem:
                 part = x[inds]
             legs = [l.to_LegCharge() if isinstance(l, npc.LegPipe) and False else l for l in part.legs]
             other = npc.Array.from_ndarray(vals, legs, x.dtype, part.qtotal)
+            if o.get('purge') or o.get('shuffle') is not None:
+                # the value stores its own selection of blocks (zero blocks are not stored when `purge`), in its own order
+                keep = [i for i, blk in enumerate(other._data) if not o.get('purge') or np.any(blk != 0)]
+                if o.get('shuffle') is not None:
+                    random.Random(o['shuffle']).shuffle(keep)
+                other._data = [other._data[i] for i in keep]
+                other._qdata = np.array(other._qdata[keep], dtype=np.intp, order='C').reshape(len(keep), other.rank)
+                other._qdata_sorted = rows_sorted(other._qdata) and o.get('shuffle') is None
+                other.test_sanity()
+            stat = getattr(env, 'stat_hook', None)
+            if stat is not None:
+                ps = {tuple(int(t) for t in r) for r in part._qdata}
+                os_ = {tuple(int(t) for t in r) for r in other._qdata}
+                stat('setitem-npc')
+                if ps - os_:
+                    stat('setitem-npc:part-stores-block-the-value-lacks')
+                    stat('setitem-npc:part-stores-block-the-value-lacks:%s' % ('value-fewer-blocks' if len(os_) < len(ps) else
+                                                                              'value-same-count' if len(os_) == len(ps) else 'value-more-blocks'))
+                if os_ - ps:
+                    stat('setitem-npc:value-stores-block-the-part-lacks')
+                if not os_:
+                    stat('setitem-npc:value-without-blocks')
+                if any(it['t'] in ('mask', 'idx', 'list') for it in o['inds']):
+                    stat('setitem-npc:mask-or-index-array')
             x[inds] = other
         else:
             x[inds] = vals
@@ -2519,7 +2612,7 @@ class OpInit:
         allowed = allowed_mask(T, env.mods)
         vals = rand_values(rng, T.shape, dtype == 'complex128') * allowed
         decisions = {}
-        p_missing = rng.choice([0.0, 0.0, 0.25, 0.25] if getattr(env, 'rich', False) else [0.0, 0.25, 0.25, 0.6])
+        p_missing = rng.choice(getattr(env, 'p_missing', None) or ([0.0, 0.0, 0.25, 0.25] if getattr(env, 'rich', False) else [0.0, 0.25, 0.25, 0.6]))
         for c in block_combos(legs):
             tot = np.zeros(env.q, dtype=QT)
             for l, b in zip(legs, c):
@@ -2786,6 +2879,13 @@ class ProgramRunner:
         self.env = Env(prog['mods'], prog['names'], prog.get('maxrank', 4))
         self.env.config = config
         self.env.rich = bool(prog.get('rich', False))
+        #  sparse_values: the values assigned by `a[inds] = value` get a block sparsity independent of a[inds] (OpSetitem.sparsify), drawn from a
+        #                 side generator, so that the sequence of operations is the one of the same program without the key
+        self.env.sparse_values = random.Random(prog['seed'] ^ 0x2545f491) if prog.get('sparse_values') else None
+        self.env.stat_hook = self.stat
+        #  p_missing:     choices for the probability that an allowed block of an initial tensor is not stored (default: see OpInit.gen_from)
+        #  op_weights:    see gen_step
+        self.env.p_missing = prog.get('p_missing')
         npc = _npc()
         self.env.chinfo = npc.ChargeInfo(prog['mods'], prog['names'])
         self.env.pool = [leg_from_spec(sp, self.env.q) for sp in prog['pool']]
@@ -2904,6 +3004,9 @@ class ProgramRunner:
         malformed = rng.random() < self.prog.get('p_malformed', 0.1)
         names = [n for n in OPS if OPS[n].weight > 0]
         weights = [OPS[n].weight for n in names]
+        ow = self.prog.get('op_weights')
+        if ow:      # focused programs: weights of the named operations replaced, all others scaled by ow['*']
+            weights = [float(ow[n]) if n in ow else OPS[n].weight * float(ow.get('*', 1.0)) for n in names]
         for _ in range(40):
             name = rng.choices(names, weights)[0]
             o = OPS[name].gen(rng, env, malformed=malformed)
@@ -3249,10 +3352,11 @@ class ProgramRunner:
                 'nsteps': len(self.ops)}
 
 
-def make_program(rng, tier='quick', record_coq=0, p_chain=0.0, keep_flagged=False, rich=False):
+def make_program(rng, tier='quick', record_coq=0, p_chain=0.0, keep_flagged=False, rich=False, sparse_values=False, op_weights=None, p_missing=None):
     """program header (charge structure, leg pool, length); the steps are generated while running.
     p_chain / keep_flagged: see ProgramRunner.__init__ (not drawn from rng; absent from the header when off);
-    rich: at least one charge, legs from gen_leg_rich, fewer missing blocks (tensors with several stored blocks)"""
+    rich: at least one charge, legs from gen_leg_rich, fewer missing blocks (tensors with several stored blocks);
+    sparse_values / op_weights / p_missing: see ProgramRunner.__init__ (absent from the header when off)"""
     mods, names = gen_chinfo(rng)
     while rich and not mods:
         mods, names = gen_chinfo(rng)
@@ -3272,6 +3376,12 @@ def make_program(rng, tier='quick', record_coq=0, p_chain=0.0, keep_flagged=Fals
         prog['keep_flagged'] = True
     if rich:
         prog['rich'] = True
+    if sparse_values:
+        prog['sparse_values'] = True
+    if op_weights:
+        prog['op_weights'] = dict(op_weights)
+    if p_missing:
+        prog['p_missing'] = list(p_missing)
     return prog
 
 
